@@ -502,6 +502,17 @@ def gen_case(rng, profile=None):
                     ad2.append(gen_adapter(rng, end, nm, allow_linked=not pair_adapters, simple=P["simple_adapters"] or pair_adapters))
             if want2 and not demux and not pair_adapters and rng.random() < 0.25:
                 ad1 = []  # adapters on R2 only
+            if pair_adapters and len(ad1) >= 2 and len(ad2) == len(ad1) and rng.random() < 0.35:
+                # dual-index layout: the same index sequence on one side is combined with different
+                # ones on the other side (two ranks share an R1 or an R2 adapter sequence)
+                side = rng.choice([ad1, ad2])
+                i_, j_ = rng.sample(range(len(side)), 2)
+                src_ = side[j_]
+                body = src_["spec"].split("=", 1)[1] if (src_["name"] and "=" in src_["spec"]) else src_["spec"]
+                dst_ = dict(src_)
+                dst_["name"] = side[i_]["name"]
+                dst_["spec"] = (f"{dst_['name']}=" if dst_["name"] else "") + body
+                side[i_] = dst_
     if ad1 and not pair_adapters and rng.random() < P["p_duplicate_adapter"]:
         # the same adapter (type and sequence) given twice under two names: legal, only warned about
         src_ = rng.choice(ad1)
